@@ -435,6 +435,7 @@ class Comparison(Display):
         # service_dict["changed_parameters_of_service"][{0 = services, 1 = changed_parameters, 2 = information_texts}][i]
 
         dl1_service_names = [service.short_name for service in dl1.services]
+        dl2_service_names = [service.short_name for service in dl2.services]
 
         # extract the constant prefixes for the requests of all
         # services (used for duck-typed rename detection)
@@ -445,27 +446,57 @@ class Comparison(Display):
             None if s.request is None else s.request.coded_const_prefix() for s in dl2.services
         ]
 
+        def add_param_changes(service1: DiagService, service2: DiagService) -> None:
+            # compare request, pos. response and neg. response parameters of both diagnostic services
+            detailed_information = self.compare_services(service1, service2)
+            # detailed_information = [[infotext1, table1, infotext2, table2, ...], changed_params]
+
+            # add information about changed diagnostic service parameters to dicitionary
+            if detailed_information[1]:  # check whether string "changed_params" is empty
+                # new service (type: DiagService)
+                service_dict["changed_parameters_of_service"][0].append(  # type: ignore[union-attr]
+                    service1)
+                # add parameters which have been changed (type: String)
+                service_dict["changed_parameters_of_service"][1].append(  # type: ignore[union-attr]
+                    detailed_information[1])  # type: ignore[arg-type]
+                # add detailed information about changed service parameters (type: list) [infotext1, table1, infotext2, table2, ...]
+                service_dict["changed_parameters_of_service"][2].append(  # type: ignore[union-attr]
+                    detailed_information[0])  # type: ignore[arg-type]
+
+        # services of dl2 which are present in dl1 using a different name
+        old_names_of_renamed_services: List[str] = []
+
         # compare diagnostic services
-        for service1 in dl1.services:
+        for service1_idx, service1 in enumerate(dl1.services):
+            rq_prefix = dl1_request_prefixes[service1_idx]
 
-            # check for added diagnostic services
-            rq_prefix: Optional[bytes] = None
-            if service1.request is not None:
-                rq_prefix = service1.request.coded_const_prefix()
+            if service1.short_name not in dl2_service_names:
+                # the service is either new or it has been renamed. a
+                # service is considered to be renamed if exactly one
+                # service that has vanished from the other layer
+                # exhibits the same constant request prefix (and no
+                # other new service does)
+                # TODO: this will not work in cases where the constant
+                # prefix of a request was modified...
+                old_candidates = [
+                    s for s, prefix in zip(dl2.services, dl2_request_prefixes)
+                    if rq_prefix is not None and prefix == rq_prefix and
+                    s.short_name not in dl1_service_names
+                ]
+                new_candidates = [
+                    s for s, prefix in zip(dl1.services, dl1_request_prefixes)
+                    if rq_prefix is not None and prefix == rq_prefix and
+                    s.short_name not in dl2_service_names
+                ]
 
-            if service1 not in dl2.services:
-                if rq_prefix is None or rq_prefix not in dl2_request_prefixes:
-                    # TODO: this will not work in cases where the constant
-                    # prefix of a request was modified...
+                if len(old_candidates) != 1 or len(new_candidates) != 1:
+                    # check for added diagnostic services
                     service_dict["new_services"].append(  # type: ignore[union-attr]
                         service1)  # type: ignore[arg-type]
-
-            # check whether names of diagnostic services have changed
-            elif service1 not in dl2.services:
-                if rq_prefix is None or rq_prefix in dl2_request_prefixes:
-                    # get related diagnostic service for request
-                    service2_idx = dl2_request_prefixes.index(rq_prefix)
-                    service2 = dl2.services[service2_idx]
+                else:
+                    # check whether names of diagnostic services have changed
+                    service2 = old_candidates[0]
+                    old_names_of_renamed_services.append(service2.short_name)
 
                     # save information about changes in dictionary
 
@@ -476,54 +507,18 @@ class Comparison(Display):
                     service_dict["changed_name_of_service"][1].append(  # type: ignore[union-attr]
                         service2.short_name)
 
-                    # compare request, pos. response and neg. response parameters of diagnostic services
-                    detailed_information = self.compare_services(service1, service2)
-                    # detailed_information = [[infotext1, table1, infotext2, table2, ...], changed_params]
+                    add_param_changes(service1, service2)
 
-                    # add information about changed diagnostic service parameters to dicitionary
-                    if detailed_information[1]:  # check whether string "changed_params" is empty
-                        # new service (type: DiagService)
-                        service_dict["changed_parameters_of_service"][
-                            0].append(  # type: ignore[union-attr]
-                                service1)
-                        # add parameters which have been changed (type: String)
-                        service_dict["changed_parameters_of_service"][
-                            1].append(  # type: ignore[union-attr]
-                                detailed_information[1])  # type: ignore[arg-type]
-                        # add detailed information about changed service parameters (type: list) [infotext1, table1, infotext2, table2, ...]
-                        service_dict["changed_parameters_of_service"][
-                            2].append(  # type: ignore[union-attr]
-                                detailed_information[0])  # type: ignore[arg-type]
-
-            for service2_idx, service2 in enumerate(dl2.services):
-
-                # check for deleted diagnostic services
-                if service2.short_name not in dl1_service_names and dl2_request_prefixes[
-                        service2_idx] not in dl1_request_prefixes:
-
-                    deleted_list = service_dict["deleted_services"]
-                    assert isinstance(deleted_list, list)
-                    if service2 not in deleted_list:
-                        service_dict["deleted_services"].append(  # type: ignore[union-attr]
-                            service2)  # type: ignore[arg-type]
-
+            for service2 in dl2.services:
                 if service1.short_name == service2.short_name:
-                    # compare request, pos. response and neg. response parameters of both diagnostic services
-                    detailed_information = self.compare_services(service1, service2)
-                    # detailed_information = [[infotext1, table1, infotext2, table2, ...], changed_params]
+                    add_param_changes(service1, service2)
 
-                    # add information about changed diagnostic service parameters to dicitionary
-                    if detailed_information[1]:  # check whether string "changed_params" is empty
-                        # new service (type: DiagService)
-                        service_dict["changed_parameters_of_service"][
-                            0].append(  # type: ignore[union-attr]
-                                service1)
-                        # add parameters which have been changed (type: String)
-                        service_dict["changed_parameters_of_service"][  # type: ignore[union-attr]
-                            1].append(detailed_information[1])  # type: ignore[arg-type]
-                        # add detailed information about changed service parameters (type: list) [infotext1, table1, infotext2, table2, ...]
-                        service_dict["changed_parameters_of_service"][  # type: ignore[union-attr]
-                            2].append(detailed_information[0])  # type: ignore[arg-type]
+        # check for deleted diagnostic services
+        for service2 in dl2.services:
+            if service2.short_name not in dl1_service_names and service2.short_name not in old_names_of_renamed_services:
+                service_dict["deleted_services"].append(  # type: ignore[union-attr]
+                    service2)  # type: ignore[arg-type]
+
         return service_dict
 
     def compare_databases(self, database_new: Database,
